@@ -534,3 +534,32 @@ def snapshot(q):
     return ([f2b(v) for v in vals], q.units(),
             [(k, v.num, v.den) for k, v in q.baseunits.baseunits.items()],
             type(q.magnitude.value).__name__ == "ndarray")
+
+
+def reads_as_intended(cat, items):
+    """Independent reading of the tokens this generator writes, from the tables alone (the parser is NOT
+    consulted): the grammar takes the longest table symbol that is a suffix of a token and requires the
+    rest to be empty or a prefix. A token `prefix+symbol` whose longest-suffix symbol is another one
+    (`m`+`in` = `min`, `P`+`a` …) does not denote the intended unit: such inputs are not generated."""
+    symbols = getattr(cat, "_symbols", None)
+    if symbols is None:
+        symbols = cat._symbols = [s for s in cat.units if not s.startswith("#")]
+    seen = set()
+    for p, s, (n, d) in items:
+        if d == 0:
+            return False
+        uid = cat.unitid(p, s)
+        if uid in seen:
+            return False        # the same dict key twice would be merged
+        seen.add(uid)
+        if s.startswith("#"):
+            if p:
+                return False
+            continue
+        tok = (p or "") + s
+        best = max((t for t in symbols if tok.endswith(t)), key=len)
+        if best != s:
+            return False
+        if p and p not in cat.units[s][2]:
+            return False
+    return True
